@@ -272,11 +272,11 @@ def Resolves (env : PrintEnv) : Event → Prop
   | .marshal m => m.val = none ∨ ∃ p, env.prim m.vclass = some p
   | .warning _ => True
 
-/-- what the decoder emits: every value event has a known class, and whatever follows a byte-list parent as its
-child (same parent path, same name) is a value event -/
+/-- what the decoder emits: every value event has a known class, and the events that directly follow a byte-buffer parent as
+its children are value events -/
 structure Shaped (env : PrintEnv) (evs : List Event) : Prop where
   resolves : ∀ e ∈ evs, Resolves env e
-  kids : ∀ p c, .marshal p ∈ evs → .marshal c ∈ evs → p.ty = .listOf "BYTE" → isChild p.path c.path = true → c.val ≠ none
+  kids : kidsOk evs = true
 
 theorem eventBytes_ok {env : PrintEnv} {m : MEvent} (h : Resolves env (.marshal m)) : ∃ bs, eventBytes env m = .ok bs := by
   unfold eventBytes
@@ -294,7 +294,7 @@ theorem prettyRow_ok {env : PrintEnv} {m : MEvent} (h : Resolves env (.marshal m
   exact ⟨_, rfl⟩
 
 theorem foldBytes_total (env : PrintEnv) (parent : MEvent) : ∀ (evs : List Event) (k : Nat) (buf : List Byte) (infos : List Row),
-    (∀ e ∈ evs, Resolves env e) → (∀ c, .marshal c ∈ evs → isChild parent.path c.path = true → c.val ≠ none) →
+    (∀ e ∈ evs, Resolves env e) → bytesRun parent.path evs = true →
     ∃ r, foldBytes env parent evs k buf infos = .ok r := by
   intro evs
   induction evs with
@@ -302,19 +302,17 @@ theorem foldBytes_total (env : PrintEnv) (parent : MEvent) : ∀ (evs : List Eve
   | cons e rest ih =>
     intro k buf infos hr hk
     have hr' : ∀ e ∈ rest, Resolves env e := fun x hx => hr x (by simp [hx])
-    have hk' : ∀ c, .marshal c ∈ rest → isChild parent.path c.path = true → c.val ≠ none :=
-      fun c hc => hk c (by simp [hc])
     cases e with
-    | warning w => simp only [foldBytes]; exact ih _ _ _ hr' hk'
+    | warning w => simp only [foldBytes]; exact ih _ _ _ hr' (by simpa [bytesRun] using hk)
     | marshal c =>
       simp only [foldBytes]
       split
       · rename_i hc
         obtain ⟨bs, hb⟩ := eventBytes_ok (hr (.marshal c) (by simp))
-        have hv := hk c (by simp) hc
+        simp only [bytesRun, hc, if_true, Bool.and_eq_true] at hk
         cases hcv : c.val with
-        | none => exact absurd hcv hv
-        | some x => simp only [hb]; exact ih _ _ _ hr' hk'
+        | none => rw [hcv] at hk; simp at hk
+        | some x => simp only [hb]; exact ih _ _ _ hr' hk.2
       · exact ⟨_, rfl⟩
 
 theorem foldElems_total (env : PrintEnv) (parent : MEvent) (hp : Resolves env (.marshal parent)) : ∀ (evs : List Event) (k : Nat) (isEmpty : Bool)
@@ -346,7 +344,8 @@ theorem foldElems_total (env : PrintEnv) (parent : MEvent) (hp : Resolves env (.
 events: the next event and the rest are events of the stream -/
 theorem fold_suffix (env : PrintEnv) (m : MEvent) (rest : List Event) (k : Nat) (frows : List Row) (nxt : Option MEvent)
     (rest' : List Event) (k' : Nat) (h : foldList env m rest k = .ok (frows, nxt, rest', k')) :
-    rest'.length ≤ rest.length ∧ (∀ e ∈ rest', e ∈ rest) ∧ (∀ c, nxt = some c → .marshal c ∈ rest) := by
+    rest'.length ≤ rest.length ∧ (∀ e ∈ rest', e ∈ rest) ∧ (∀ c, nxt = some c → .marshal c ∈ rest) ∧
+      ∃ consumed, rest = consumed ++ nxtL nxt ++ rest' := by
   have key : ∃ consumed, rest = consumed ++ nxtL nxt ++ rest' ∧ rest'.length ≤ rest.length := by
     unfold foldList at h
     split at h
@@ -354,7 +353,7 @@ theorem fold_suffix (env : PrintEnv) (m : MEvent) (rest : List Event) (k : Nat) 
       exact ⟨cons, h1, h3⟩
     · exact foldElems_struct env m rest k true [] frows nxt rest' k' h
   obtain ⟨consumed, h1, h2⟩ := key
-  refine ⟨h2, ?_, ?_⟩
+  refine ⟨h2, ?_, ?_, consumed, h1⟩
   · intro e he; rw [h1]; simp [he]
   · intro c hc; subst hc; rw [h1]; simp
 where
@@ -404,11 +403,16 @@ where
             obtain ⟨_, rfl, rfl, _⟩ := h
             exact ⟨[], by simp, by simp⟩
 
-/-- **termination without error**: on every shaped event stream — in particular every stream the decoder
-produces, in either mode — the pretty printer returns rows -/
+theorem kidsOk_suffix : ∀ (a b : List Event), kidsOk (a ++ b) = true → kidsOk b = true
+  | [], b, h => h
+  | .warning _ :: a, b, h => kidsOk_suffix a b (by simpa [kidsOk] using h)
+  | .marshal p :: a, b, h => kidsOk_suffix a b (by
+      simp only [List.cons_append, kidsOk, Bool.and_eq_true] at h
+      exact h.2)
+
+/-- **termination without error**: on every shaped event stream the pretty printer returns rows -/
 theorem c14_total (env : PrintEnv) : ∀ (fuel : Nat) (evs : List Event) (k : Nat), evs.length < fuel →
-    (∀ e ∈ evs, Resolves env e) →
-    (∀ p c, .marshal p ∈ evs → .marshal c ∈ evs → p.ty = .listOf "BYTE" → isChild p.path c.path = true → c.val ≠ none) →
+    (∀ e ∈ evs, Resolves env e) → kidsOk evs = true →
     ∃ rows, prettyGo env fuel evs k = .ok rows := by
   intro fuel
   induction fuel with
@@ -419,15 +423,14 @@ theorem c14_total (env : PrintEnv) : ∀ (fuel : Nat) (evs : List Event) (k : Na
     | nil => exact ⟨[], rfl⟩
     | cons e rest =>
       have hr' : ∀ e ∈ rest, Resolves env e := fun x hx => hr x (by simp [hx])
-      have hk' : ∀ p c, .marshal p ∈ rest → .marshal c ∈ rest → p.ty = .listOf "BYTE" → isChild p.path c.path = true → c.val ≠ none :=
-        fun p c hp hc => hk p c (by simp [hp]) (by simp [hc])
       have hl' : rest.length < n := by simp at hlen; omega
       cases e with
       | warning w =>
-        obtain ⟨rs, h⟩ := ih rest (k + 1) hl' hr' hk'
+        obtain ⟨rs, h⟩ := ih rest (k + 1) hl' hr' (by simpa [kidsOk] using hk)
         simp only [prettyGo, h]
         exact ⟨_, rfl⟩
       | marshal m =>
+        simp only [kidsOk, Bool.and_eq_true] at hk
         simp only [prettyGo]
         split
         · -- list parent
@@ -435,10 +438,10 @@ theorem c14_total (env : PrintEnv) : ∀ (fuel : Nat) (evs : List Event) (k : Na
             unfold foldList
             split
             · rename_i hty
-              exact foldBytes_total env m rest k [] [] hr' (fun c hc hch => hk m c (by simp) (by simp [hc]) hty hch)
+              exact foldBytes_total env m rest k [] [] hr' (by simpa [hty] using hk.1)
             · exact foldElems_total env m (hr (.marshal m) (by simp)) rest k true [] hr'
           obtain ⟨⟨frows, nxt, rest', k'⟩, hf⟩ := hfold
-          obtain ⟨hlen', hsub, hnxt⟩ := fold_suffix env m rest k frows nxt rest' k' hf
+          obtain ⟨hlen', hsub, hnxt, consumed, hsplit⟩ := fold_suffix env m rest k frows nxt rest' k' hf
           simp only [hf]
           cases nxt with
           | none => exact ⟨_, rfl⟩
@@ -446,16 +449,30 @@ theorem c14_total (env : PrintEnv) : ∀ (fuel : Nat) (evs : List Event) (k : Na
             simp only []
             obtain ⟨r, hrw⟩ := prettyRow_ok (hr' (.marshal c) (hnxt c rfl))
             obtain ⟨rs, hgo⟩ := ih rest' k' (by omega) (fun e he => hr' e (hsub e he))
-              (fun p c hp hc => hk' p c (hsub _ hp) (hsub _ hc))
+              (kidsOk_suffix (consumed ++ nxtL (some c)) rest' (by rw [← hsplit]; exact hk.2))
             simp only [hrw, hgo]
             exact ⟨_, rfl⟩
         · obtain ⟨r, hrw⟩ := prettyRow_ok (hr (.marshal m) (by simp))
-          obtain ⟨rs, hgo⟩ := ih rest k hl' hr' hk'
+          obtain ⟨rs, hgo⟩ := ih rest k hl' hr' hk.2
           simp only [hrw, hgo]
           exact ⟨_, rfl⟩
 
 theorem c14_total_top (env : PrintEnv) (evs : List Event) (h : Shaped env evs) : ∃ rows, prettyRows env evs = .ok rows :=
   c14_total env _ evs 0 (Nat.lt_succ_self _) h.resolves h.kids
+
+theorem shaped_of_b {env : PrintEnv} {evs : List Event} (h : shapedB env evs = true) : Shaped env evs := by
+  simp only [shapedB, Bool.and_eq_true, List.all_eq_true] at h
+  refine ⟨fun e he => ?_, h.2⟩
+  have := h.1 e he
+  cases e with
+  | warning w => trivial
+  | marshal m =>
+    simp only [resolvesB, Bool.or_eq_true, Option.isNone_iff_eq_none, Option.isSome_iff_exists] at this
+    exact this
+
+/-- the computable form: `shapedB` is what the driver evaluates on every decoded stream (the `K` line of `PRINT`) -/
+theorem c14_total_b (env : PrintEnv) (evs : List Event) (h : shapedB env evs = true) : ∃ rows, prettyRows env evs = .ok rows :=
+  c14_total_top env evs (shaped_of_b h)
 
 /-- the events printer is a total function by construction: one row per event, in order -/
 theorem c14_events_rows (env : PrintEnv) : ∀ (evs : List Event) (k : Nat), (eventsRows env evs k).length = evs.length := by
